@@ -480,4 +480,358 @@ Proof.
     + left. split; [rewrite Hps; lia|rewrite Hps; exact Ha].
 Qed.
 
+(* ------------------------------------------------------------------ the provided type up to unfolding *)
+Lemma client_conv Δ Γ sh n t t' : client_ty Δ Γ sh n t -> teq D t t' -> client_ty Δ Γ sh n t'.
+Proof.
+  intros [H1 [[t0 [Ha [Hb Hc]]] H2]] HT. split; auto. split.
+  - exists t0. split; auto. split; auto. eapply Htrans; eauto.
+  - destruct (chan n).
+    + destruct H2 as [u [Hu1 Hu2]]. exists u. split; auto. eapply Htrans; eauto.
+    + destruct H2 as [Hs [u [Hu1 Hu2]]]. split; auto. exists u. split; auto. eapply Htrans; eauto.
+Qed.
+
+Lemma typed_conv_mut :
+  (forall Γ sh rs s f, typed ∅ Γ sh rs s f ->
+     forall s', (forall u, whd D s u -> whd D s' u) -> teq D s s' -> typed ∅ Γ sh rs s' f) /\
+  (forall Γ rs bs b, typed_brs_p D F (teq D) ∅ Γ rs bs b -> True) /\
+  (forall Γ sh rs s bs b, typed_brs_c D F (teq D) ∅ Γ sh rs s bs b ->
+     forall s', (forall u, whd D s u -> whd D s' u) -> teq D s s' -> typed_brs_c D F (teq D) ∅ Γ sh rs s' bs b).
+Proof.
+  apply typed_mutind; intros; try exact I.
+  - eapply T_SendP; eauto.
+  - eapply T_SendC; eauto.
+  - eapply T_RecvP; eauto.
+  - eapply T_RecvC; eauto.
+  - eapply T_SelP; eauto.
+  - eapply T_SelC; eauto.
+  - eapply T_CaseP; eauto.
+  - eapply T_CaseC; eauto.
+  - eapply T_New; eauto.
+  - eapply T_Close; eauto.
+  - eapply T_Wait; eauto.
+  - eapply T_Fwd; eauto using client_conv.
+  - eapply T_Drop; eauto.
+  - eapply T_Call; eauto.
+  - eapply T_CastP; eauto.
+  - eapply T_CastC; eauto.
+  - eapply T_ShiftP; eauto.
+  - eapply T_ShiftC; eauto.
+  - eapply T_Split; eauto.
+  - eapply T_Print; eauto.
+  - constructor.
+  - econstructor; eauto.
+Qed.
+
+Lemma typed_unfolded Γ sh rs t h f : good D t -> Typing.head D t h -> typed ∅ Γ sh rs h f -> typed ∅ Γ sh rs t f.
+Proof.
+  intros G Hh HT. eapply (proj1 typed_conv_mut); [exact HT| |apply Hunf; auto].
+  intros u Hu. pose proof (whd_of_head _ _ _ Hh) as W.
+  assert (u = h) as -> by (eapply whd_det; [exact Hu|eapply whd_idem; exact W]). exact W.
+Qed.
+
+(* ------------------------------------------------------------------ the shadow *)
+Lemma ctx_has_false g x : ctx_has g x = false -> alookup x g = None.
+Proof. unfold ctx_has. apply amem_false. Qed.
+
+Lemma prov_eq n sh : is_self n = false -> is_provider n sh = true -> shid sh = Some (ident n).
+Proof.
+  unfold is_provider. intros -> H. destruct sh as [s|]; [|discriminate H]. simpl in H.
+  apply String.eqb_eq in H. simpl. congruence.
+Qed.
+Lemma not_prov_shid n sh : is_provider n sh = false -> shid sh <> Some (ident n).
+Proof.
+  unfold is_provider. intros H. apply orb_false_iff in H. destruct H as [_ H].
+  destruct sh as [s|]; [|discriminate]. simpl. intros E. injection E as E. rewrite E, String.eqb_refl in H. discriminate.
+Qed.
+Lemma prov_shid sh rs n t : nm_ok rs n = true -> is_provider n sh = true -> prov_name (shid sh) rs (set_nty n t).
+Proof. intros Hok Hp. apply prov_ok; auto. intros Sf. apply prov_eq; auto. Qed.
+
+Lemma shadow_fresh_bind g sh n t : shadow_fresh g sh -> is_provider n sh = false -> shadow_fresh (bind g n t) sh.
+Proof.
+  intros SF Hp s ->. unfold bind. rewrite alookup_aset.
+  destruct (String.eqb (ident s) (ident n)) eqn:E; [|apply SF; auto].
+  unfold is_provider in Hp. apply orb_false_iff in Hp. destruct Hp as [_ Hp]. simpl in Hp.
+  rewrite String.eqb_sym in Hp. congruence.
+Qed.
+Lemma shadow_fresh_sub g g' sh : (forall k v, alookup k g' = Some v -> alookup k g = Some v) ->
+  shadow_fresh g sh -> shadow_fresh g' sh.
+Proof.
+  intros Hs SF s E. destruct (alookup (ident s) g') eqn:L; auto. apply Hs in L. rewrite (SF _ E) in L. discriminate.
+Qed.
+Lemma shadow_fresh_without g sh n : shadow_fresh g sh -> shadow_fresh (without g n) sh.
+Proof.
+  apply shadow_fresh_sub. intros k v L. unfold without in L. apply alookup_aremove_Some in L. tauto.
+Qed.
+
+Lemma leaf_obl_shid g sh f : shadow_fresh g sh -> leaf_obl g sh (shid sh) f.
+Proof.
+  intros SF. assert (P : forall n, is_self n = false -> is_provider n sh = true -> ctx_has g (ident n) = false).
+  { intros n Sf Hp. pose proof (prov_eq _ _ Sf Hp) as E. destruct sh as [s|]; [|discriminate E].
+    simpl in E. injection E as E. unfold ctx_has. apply amem_false. rewrite <- E. apply SF; auto. }
+  split.
+  - intros n _ Sf Hp _. apply prov_eq; auto.
+  - intros n _ Sf Hc E. destruct sh as [s|]; [|discriminate E]. simpl in E. injection E as E.
+    unfold ctx_has in Hc. apply amem_true in Hc. destruct Hc as [v Hv]. rewrite <- E, (SF s eq_refl) in Hv. discriminate.
+  - left. intros n _. apply P.
+Qed.
+
+Lemma ctx_rel_bind' g Γ n t t' : ctx_rel g Γ -> teq D t' t -> ctx_rel (bind g n t) (<[ident n := t']> Γ).
+Proof.
+  intros H HT x t0 L. unfold bind in L. rewrite alookup_aset in L.
+  destruct (String.eqb x (ident n)) eqn:E.
+  - apply String.eqb_eq in E. subst x. injection L as <-. rewrite lookup_insert. eauto.
+  - apply String.eqb_neq in E. rewrite lookup_insert_ne by auto. eauto.
+Qed.
+
+Lemma name_equal_bd a b : bd_ok a = true -> bd_ok b = true -> name_equal a b = false -> ident a <> ident b.
+Proof.
+  unfold bd_ok, name_equal, initialized. destruct (chan a); [discriminate|]. destruct (chan b); [discriminate|].
+  simpl. intros _ _ H E. rewrite E, String.eqb_refl in H. discriminate.
+Qed.
+
+(* ------------------------------------------------------------------ all forms *)
+Definition RtAt (f : form) : Prop := forall g sh A f' Γ rs,
+  gctx D g -> good D A -> shadow_fresh g sh -> tc_form D Sg g sh (Some A) f = TOk f' ->
+  ctx_rel g Γ -> syn_form rs f = true -> form_syn f = true ->
+  typed ∅ Γ (shid sh) rs A f'.
+
+Lemma leaf_rt f : LeafAt f -> RtAt f.
+Proof.
+  intros HL g sh A f' Γ rs Gg GA SF H HR Hsyn _. eapply HL; eauto. apply leaf_obl_shid; auto.
+Qed.
+
+Lemma rt_recv pay cont from k : RtAt k -> RtAt (FRecv pay cont from k).
+Proof.
+  intros IH g sh A f' Γ rs Gg GA SF H HR Hsyn Hfs. pose proof (gctx_wf _ Gg) as Wg. pose proof (proj1 GA) as WA.
+  cbn [tc_form] in H. syn_split Hsyn. simpl in Hfs. apply andb_true_iff in Hfs. destruct Hfs as [_ Fk].
+  destruct (is_provider from sh) eqn:Pf.
+  - unf HDw H WA. as3 H as_lolli as_lolli_some.
+    destruct (good_lolli _ _ _ _ (good_head _ HD _ _ Hh GA)) as [Gl Gr].
+    pose proof (proj1 Gl) as Wl. pose proof (proj1 Gr) as Wr.
+    unf HDw H Wl. unf HDw H Wr. step H. step H.
+    apply negb_true_iff, orb_false_iff in G. destruct G as [F1 F2]. apply negb_true_iff in G0.
+    step H. step H. injection H as <-.
+    pose proof (name_equal_bd _ _ Hsyn N1 G0) as Hne.
+    eapply T_RecvP with (A := s) (B := s0) (m := m).
+    + apply prov_shid; auto.
+    + apply whd_of_head. exact Hh.
+    + apply bd_ok_binder. exact Hsyn.
+    + apply bd_ok_binder. exact N1.
+    + exact Hne.
+    + eapply typed_unfolded; [exact Gr|exact Hh1|].
+      eapply (IH (bind g pay h) (Some (set_nty cont (Some h0)))); eauto.
+      * apply gctx_bind; auto. eapply good_head; eauto.
+      * eapply good_head; eauto.
+      * intros z Ez. injection Ez as <-. change (ident (set_nty cont (Some h0))) with (ident cont).
+        unfold bind. rewrite alookup_aset.
+        destruct (String.eqb (ident cont) (ident pay)) eqn:Ecp; [apply String.eqb_eq in Ecp; congruence|].
+        apply ctx_has_false; auto.
+      * apply (ctx_rel_bind' _ _ pay h s); [|apply Hsym, Hunf; auto].
+        apply (ctx_rel_delete g Γ (ident cont)); auto. apply ctx_has_false; auto.
+  - destruct (is_provider pay sh || is_provider cont sh) eqn:Pp; [discriminate H|].
+    apply orb_false_iff in Pp. destruct Pp as [Pp Pc].
+    cns H Wg. unf HDw H Wt. as3 H as_tensor as_tensor_some.
+    pose proof (gctx_has _ _ _ _ Gg Has) as Gt.
+    destruct (good_tensor _ _ _ _ (good_head _ HD _ _ Hh Gt)) as [Gl Gr].
+    pose proof (proj1 Gl) as Wl. pose proof (proj1 Gr) as Wr.
+    unf HDw H Wl. unf HDw H Wr. step H. step H.
+    apply negb_true_iff, orb_false_iff in G. destruct G as [F1 F2]. apply negb_true_iff in G0.
+    step H. step H. injection H as <-.
+    pose proof (name_equal_bd _ _ Hsyn N1 G0) as Hne.
+    eapply T_RecvC with (T := t) (A := s) (B := s0) (m := m).
+    + apply (client_ok g Γ (shid sh) rs from t _ t Gg HR Has Hh N0); [apply not_prov_shid; auto|apply Hrefl].
+    + apply whd_of_head. exact Hh.
+    + apply bd_ok_binder. exact Hsyn.
+    + apply bd_ok_binder. exact N1.
+    + exact Hne.
+    + apply not_prov_shid; auto.
+    + apply not_prov_shid; auto.
+    + eapply (IH (bind (bind (without g from) pay h) cont h0) sh); eauto.
+      * apply gctx_bind; [apply gctx_bind; [apply gctx_without; auto|]|]; eapply good_head; eauto.
+      * apply shadow_fresh_bind; auto. apply shadow_fresh_bind; auto. apply shadow_fresh_without; auto.
+      * apply (ctx_rel_bind' _ _ cont h0 s0); [|apply Hsym, Hunf; auto].
+        apply (ctx_rel_bind' _ _ pay h s); [|apply Hsym, Hunf; auto]. apply ctx_rel_without; auto.
+Qed.
+
+Lemma rt_wait c k : RtAt k -> RtAt (FWait c k).
+Proof.
+  intros IH g sh A f' Γ rs Gg GA SF H HR Hsyn Hfs. pose proof (gctx_wf _ Gg) as Wg. pose proof (proj1 GA) as WA.
+  cbn [tc_form] in H. syn_split Hsyn. simpl in Hfs. apply andb_true_iff in Hfs. destruct Hfs as [_ Fk].
+  destruct (is_provider c sh) eqn:Pc.
+  - unf HDw H WA. destruct (is_unit (Some h)); [discriminate H|now apply type_mismatch_not_ok in H].
+  - cns H Wg. unf HDw H Wt.
+    destruct (is_unit (Some h)) eqn:Un; [|now apply type_mismatch_not_ok in H].
+    apply is_unit_some in Un. destruct Un as [m Un]. inversion Un; subst h.
+    step H. step H. injection H as <-.
+    eapply T_Wait with (T := t) (m := m).
+    + apply (client_ok g Γ (shid sh) rs c t _ t Gg HR Has Hh Hsyn); [apply not_prov_shid; auto|apply Hrefl].
+    + apply whd_of_head. exact Hh.
+    + eapply (IH (without g c) sh); eauto.
+      * apply gctx_without; auto.
+      * apply shadow_fresh_without; auto.
+      * apply ctx_rel_without; auto.
+Qed.
+
+Lemma rt_drop c k : RtAt k -> RtAt (FDrop c k).
+Proof.
+  intros IH g sh A f' Γ rs Gg GA SF H HR Hsyn Hfs. pose proof (gctx_wf _ Gg) as Wg. pose proof (proj1 GA) as WA.
+  cbn [tc_form] in H. syn_split Hsyn. simpl in Hfs. apply andb_true_iff in Hfs. destruct Hfs as [_ Fk].
+  destruct (negb (is_provider c sh)) eqn:Pc; [|discriminate H]. apply negb_true_iff in Pc.
+  cns H Wg. cbn [need tbind] in H.
+  destruct (weak (mode_of t)) eqn:Wk; [|discriminate H].
+  unf HDw H Wt. step H. step H. injection H as <-.
+  eapply T_Drop with (T := t).
+  - apply (client_ok g Γ (shid sh) rs c t _ t Gg HR Has Hh Hsyn); [apply not_prov_shid; auto|apply Hrefl].
+  - eapply (IH (without g c) sh); eauto.
+    + apply gctx_without; auto.
+    + apply shadow_fresh_without; auto.
+    + apply ctx_rel_without; auto.
+Qed.
+
+Lemma rt_print l k : RtAt k -> RtAt (FPrint l k).
+Proof.
+  intros IH g sh A f' Γ rs Gg GA SF H HR Hsyn Hfs.
+  cbn [tc_form] in H. simpl in Hsyn, Hfs. step H. injection H as <-.
+  apply T_Print. eapply IH; eauto.
+Qed.
+
+Lemma rt_shift x from k : RtAt k -> RtAt (FShift x from k).
+Proof.
+  intros IH g sh A f' Γ rs Gg GA SF H HR Hsyn Hfs. pose proof (gctx_wf _ Gg) as Wg. pose proof (proj1 GA) as WA.
+  cbn [tc_form] in H. syn_split Hsyn. simpl in Hfs. apply andb_true_iff in Hfs. destruct Hfs as [_ Fk].
+  destruct (is_provider from sh) eqn:Pf.
+  - unf HDw H WA. as3 H as_up as_up_some.
+    pose proof (good_up _ _ _ _ (good_head _ HD _ _ Hh GA)) as Ga. pose proof (proj1 Ga) as Wa.
+    step H. step H. unf HDw H Wa. step H. apply negb_true_iff in G0.
+    step H. step H. injection H as <-.
+    eapply T_ShiftP; [apply prov_shid; auto|apply whd_of_head; exact Hh|apply bd_ok_binder; exact Hsyn|].
+    eapply typed_unfolded; [exact Ga|exact Hh0|].
+    eapply (IH g (Some (set_nty x (Some h)))); eauto.
+    + eapply good_head; eauto.
+    + intros z Ez. injection Ez as <-. apply ctx_has_false. exact G0.
+    + apply (ctx_rel_delete g Γ (ident x)); auto. apply ctx_has_false; auto.
+  - destruct (is_provider x sh) eqn:Px; [discriminate H|].
+    cns H Wg. unf HDw H Wt. as3 H as_down as_down_some.
+    pose proof (gctx_has _ _ _ _ Gg Has) as Gt.
+    pose proof (good_down _ _ _ _ (good_head _ HD _ _ Hh Gt)) as Ga. pose proof (proj1 Ga) as Wa.
+    step H. step H. unf HDw H Wa. step H. apply negb_true_iff in G0.
+    step H. step H. injection H as <-.
+    eapply T_ShiftC with (T := t);
+      [apply (client_ok g Γ (shid sh) rs from t _ t Gg HR Has Hh N0); [apply not_prov_shid; auto|apply Hrefl]
+      |apply whd_of_head; exact Hh|apply bd_ok_binder; exact Hsyn|apply not_prov_shid; auto|].
+    eapply (IH (bind (without g from) x h) sh); eauto.
+    + apply gctx_bind; [apply gctx_without; auto|eapply good_head; eauto].
+    + apply shadow_fresh_bind; auto. apply shadow_fresh_without; auto.
+    + apply (ctx_rel_bind' _ _ x h s); [|apply Hsym, Hunf; auto]. apply ctx_rel_without; auto.
+Qed.
+
+Lemma rt_split x y from k : RtAt k -> RtAt (FSplit x y from k).
+Proof.
+  intros IH g sh A f' Γ rs Gg GA SF H HR Hsyn Hfs. pose proof (gctx_wf _ Gg) as Wg. pose proof (proj1 GA) as WA.
+  cbn [tc_form] in H. syn_split Hsyn. simpl in Hfs. apply andb_true_iff in Hfs. destruct Hfs as [_ Fk].
+  destruct (is_provider from sh) eqn:Pf; [discriminate H|].
+  cnso H Wg; [|cbn in H; discriminate H].
+  unf HDw H Wt. cbn [Tc.guard tbind] in H. step H. step H. step H.
+  apply negb_true_iff, orb_false_iff in G. destruct G as [Px Py].
+  apply negb_true_iff, orb_false_iff in G0. destruct G0 as [F1 F2]. apply negb_true_iff in G1.
+  cbn [need tbind] in H. step H. step H. step H. injection H as <-.
+  pose proof (gctx_has _ _ _ _ Gg Has) as Gt. pose proof (good_head _ HD _ _ Hh Gt) as Gh.
+  eapply T_Split with (T := t).
+  - apply (client_ok g Γ (shid sh) rs from t _ t Gg HR Has Hh N0); [apply not_prov_shid; auto|apply Hrefl].
+  - apply bd_ok_binder. exact Hsyn.
+  - apply bd_ok_binder. exact N1.
+  - exact (name_equal_bd _ _ Hsyn N1 G1).
+  - apply not_prov_shid; auto.
+  - apply not_prov_shid; auto.
+  - eapply (IH (bind (bind (without g from) x h) y h) sh); eauto.
+    + apply gctx_bind; auto. apply gctx_bind; auto. apply gctx_without; auto.
+    + apply shadow_fresh_bind; auto. apply shadow_fresh_bind; auto. apply shadow_fresh_without; auto.
+    + apply (ctx_rel_bind' _ _ y h t); [|apply Hsym, Hunf; auto].
+      apply (ctx_rel_bind' _ _ x h t); [|apply Hsym, Hunf; auto]. apply ctx_rel_without; auto.
+Qed.
+
+(* ------------------------------------------------------------------ branches *)
+Definition RtBrs (b : branches) : Prop :=
+  (forall g bs seen b' seen' Γ rs, gctx D g -> gbrs D bs ->
+     tc_branches_provider D Sg g bs seen b = TOk (b', seen') ->
+     ctx_rel g Γ -> syn_brs rs b = true -> branches_syn b = true ->
+     typed_brs_p D F (teq D) ∅ Γ rs bs b' /\ br_labels b' = br_labels b) /\
+  (forall g sh A bs seen b' seen' Γ rs, gctx D g -> good D A -> gbrs D bs -> shadow_fresh g sh ->
+     tc_branches_client D Sg g sh (Some A) bs seen b = TOk (b', seen') ->
+     ctx_rel g Γ -> syn_brs rs b = true -> branches_syn b = true ->
+     typed_brs_c D F (teq D) ∅ Γ (shid sh) rs A bs b' /\ br_labels b' = br_labels b).
+
+Lemma rt_brs_nil : RtBrs BrNil.
+Proof.
+  split.
+  - intros g bs seen b' seen' Γ rs _ _ H _ _ _. cbn in H. inversion H; subst. split; [constructor|reflexivity].
+  - intros g sh A bs seen b' seen' Γ rs _ _ _ _ H _ _ _. cbn in H. inversion H; subst. split; [constructor|reflexivity].
+Qed.
+
+Lemma rt_brs_cons l pay k r : RtAt k -> RtBrs r -> RtBrs (BrCons l pay k r).
+Proof.
+  intros IHk [IHR IHL]. split.
+  - intros g bs seen b' seen' Γ rs Gg Gbs H HR Hsyn Hfs. pose proof (gctx_wf _ Gg) as Wg.
+    rewrite tc_brsR_cons in H. syn_split Hsyn.
+    simpl in Hfs. apply andb_true_iff in Hfs. destruct Hfs as [Hfs Fr]. apply andb_true_iff in Hfs. destruct Hfs as [_ Fk].
+    step H. destruct (find_br l bs) as [bt|] eqn:Fb; [|discriminate H].
+    pose proof (Gbs _ _ Fb) as Gbt. pose proof (proj1 Gbt) as Wbt.
+    step H. apply negb_true_iff in G0.
+    unf HDw H Wbt. step H. step H. step H. destruct a0 as [r' s']. inversion H; subst.
+    destruct (IHR _ _ _ _ _ Γ rs Gg Gbs E1 HR N Fr) as [TR LR].
+    split; [|simpl; rewrite LR; reflexivity].
+    eapply TBP_cons with (A := bt); [exact Fb|apply bd_ok_binder; exact Hsyn| |exact TR].
+    eapply (IHk g (Some (set_nty pay (Some h)))); eauto.
+    + intros z Ez. injection Ez as <-. apply ctx_has_false. exact G0.
+    + apply (ctx_rel_delete g Γ (ident pay)); auto. apply ctx_has_false; auto.
+  - intros g sh A bs seen b' seen' Γ rs Gg GA Gbs SF H HR Hsyn Hfs. pose proof (gctx_wf _ Gg) as Wg.
+    rewrite tc_brsL_cons in H. syn_split Hsyn.
+    simpl in Hfs. apply andb_true_iff in Hfs. destruct Hfs as [Hfs Fr]. apply andb_true_iff in Hfs. destruct Hfs as [_ Fk].
+    step H. destruct (find_br l bs) as [bt|] eqn:Fb; [|discriminate H].
+    pose proof (Gbs _ _ Fb) as Gbt. pose proof (proj1 Gbt) as Wbt.
+    step H. apply negb_true_iff in G0. step H. apply negb_true_iff in G1.
+    unf HDw H Wbt. step H. step H. step H. destruct a0 as [r' s']. inversion H; subst.
+    destruct (IHL _ _ _ _ _ _ _ Γ rs Gg GA Gbs SF E1 HR N Fr) as [TR LR].
+    split; [|simpl; rewrite LR; reflexivity].
+    eapply TBC_cons with (A := bt); [exact Fb|apply bd_ok_binder; exact Hsyn|apply not_prov_shid; auto| |exact TR].
+    eapply (IHk (bind g pay bt) sh); eauto.
+    + apply gctx_bind; auto.
+    + apply shadow_fresh_bind; auto.
+    + apply (ctx_rel_bind g Γ pay bt); auto.
+Qed.
+
+Lemma find_branch_labels l : forall b, In l (br_labels b) -> find_branch l b <> None.
+Proof.
+  induction b as [|l' p k r IH]; simpl; [tauto|].
+  intros [->|Hin]; [rewrite String.eqb_refl; discriminate|].
+  destruct (String.eqb l' l); [discriminate|auto].
+Qed.
+
+Lemma rt_case from b : RtBrs b -> RtAt (FCase from b).
+Proof.
+  intros [IHR IHL] g sh A f' Γ rs Gg GA SF H HR Hsyn Hfs. pose proof (gctx_wf _ Gg) as Wg. pose proof (proj1 GA) as WA.
+  pose proof (proj2 (tc_form_sound_all (fun _ _ _ => True) D Sg HDw (fun _ _ _ _ _ => I) HSgw) b) as [SR SL].
+  cbn [tc_form] in H. syn_split Hsyn. simpl in Hfs. apply andb_true_iff in Hfs. destruct Hfs as [_ Fb].
+  destruct (is_provider from sh) eqn:Pf.
+  - unf HDw H WA. as2 H as_with as_with_some.
+    pose proof (good_head _ HD _ _ Hh GA) as Gh.
+    step H. destruct a as [b' seen']. step H. step H. injection H as <-.
+    destruct (IHR _ _ _ _ _ Γ rs Gg (fun l a => good_with _ _ _ l a Gh) E HR N Fb) as [TR LR].
+    destruct (SR _ _ _ _ _ Wg (fun l a => wf_with _ _ _ l a Wh) E) as [TT [SE [SN _]]].
+    eapply T_CaseP; [apply prov_shid; auto|apply whd_of_head; exact Hh| |exact TR].
+    intros l a Fl. apply find_branch_labels. rewrite LR.
+    eapply labels_cover; eauto using typed_brsR_labels. eapply find_br_Some_In; eauto.
+  - cns H Wg. unf HDw H Wt. as2 H as_plus as_plus_some.
+    pose proof (gctx_has _ _ _ _ Gg Has) as Gt. pose proof (good_head _ HD _ _ Hh Gt) as Gh.
+    step H. destruct a as [b' seen']. step H. step H. injection H as <-.
+    destruct (IHL _ _ _ _ _ _ _ Γ rs (gctx_without _ _ _ Gg) GA (fun l a => good_plus _ _ _ l a Gh)
+                (shadow_fresh_without _ _ _ SF) E (ctx_rel_without _ _ _ HR) N Fb) as [TR LR].
+    destruct (SL _ _ _ _ _ _ _ Wg0 WA (fun l a => wf_plus _ _ _ l a Wh) E) as [TT [SE [SN _]]].
+    eapply T_CaseC with (T := t);
+      [apply (client_ok g Γ (shid sh) rs from t _ t Gg HR Has Hh Hsyn); [apply not_prov_shid; auto|apply Hrefl]
+      |apply whd_of_head; exact Hh| |exact TR].
+    intros l a Fl. apply find_branch_labels. rewrite LR.
+    eapply labels_cover; eauto using typed_brsL_labels. eapply find_br_Some_In; eauto.
+Qed.
+
 End RtTc.
